@@ -19,7 +19,8 @@ def load_registry():
     return reg
 
 
-def verify_functions(qualnames, repo=None, second_backend=False, th=None, reg=None):
+def verify_functions(qualnames, repo=None, second_backend=False, th=None, reg=None, kinds=None):
+    """kinds: restrict to obligations of these kinds (e.g. {'frame'}): the VCs are generated as usual, the others are dropped."""
     th = th or Theory()
     reg = reg or load_registry()
     report = {}
@@ -31,6 +32,11 @@ def verify_functions(qualnames, repo=None, second_backend=False, th=None, reg=No
             ex = Exec(th, reg, q, repo)
             obls = ex.verify()
             info['returning_paths'] = getattr(ex, 'returning_paths', None)
+            info['mutable_params'] = [p[0] for p in reg.contracts[q].params
+                                      if (isinstance(p[1], tuple) and p[1][0] == 'seq') or p[1] in ('map', 'emap', 'kset', 'V', 'E', 'ME')]
+            if kinds is not None:
+                obls = [o for o in obls if o.kind in kinds]
+                info['kinds_only'] = sorted(kinds)
             info['obligations'] = obls
             info['pre_hyps'] = ex.pre_hyps
             info['vac_points'] = [('%s: %s' % (q, lab), h) for lab, h in ex.vac_points]
@@ -66,6 +72,8 @@ def verify_functions(qualnames, repo=None, second_backend=False, th=None, reg=No
             if q in vac_bad:
                 info['status'] = 'vacuous'
                 info['reason'] = 'contradictory hypotheses at: ' + '; '.join(vac_bad[q])
+            elif not obls and info.get('kinds_only'):
+                info['status'] = 'proved'          # no obligation of the requested kind arises (e.g. no parameter write exists)
             elif not obls and reg.contracts[q].ensures:
                 info['status'] = 'no-obligations'
             elif not obls:
